@@ -7,12 +7,12 @@
                        never while anybody is inside (observed order of the hook points)
      C10.linearizable  every lookup returns the size installed by the latest registration that
                        precedes its critical section; a replayed schedule yields the model's results *)
-EXTENDS Integers, Sequences, SequencesExt, FiniteSets, TLC, Json, IOUtils
+EXTENDS Integers, Sequences, SequencesExt, FiniteSets, TLC, Json, IOUtils, Bytes, MACCommands
 
 Tr == ndJsonDeserialize(IOEnv.VERIF_TRACE)
 VARIABLES l, nfail, reg, readers, writer, seen, results, exp
 Tag(cond, t) == IF cond THEN <<>> ELSE <<t>>
-RegOf(cid) == IF cid \in DOMAIN reg THEN reg[cid] ELSE 0
+RegOf(cid) == IF cid \in DOMAIN reg THEN reg[cid] ELSE Size("up", cid)      \* standard entries come from the specification's table
 Upd(f, k, v) == [x \in (DOMAIN f) \cup {k} |-> IF x = k THEN v ELSE f[x]]
 SeenOf(g) == IF g \in DOMAIN seen THEN seen[g] ELSE -1
 
@@ -31,6 +31,7 @@ EndFails == IF "free" \in DOMAIN exp THEN <<>>
 Fails(e) == CASE e.ev = "reset" -> <<>>
               [] e.ev = "hook" -> HookFails(e)
               [] e.ev = "end" -> EndFails
+              [] e.ev = "desync" -> <<"C10.lock">>       \* a registry access did not pass lock-acquire / access / release hook points in order
               [] e.ev = "crash" -> <<"C10.lock">>        \* the Go runtime aborted the process: unsynchronised map access / lock misuse
               [] OTHER -> <<"unknown-event">>
 Init == l = 1 /\ nfail = 0 /\ reg = <<>> /\ readers = {} /\ writer = "none" /\ seen = <<>> /\ results = <<>> /\ exp = <<>>
